@@ -11,15 +11,24 @@ def triangle(a, b, m):
     return ops.le(ops.absv(b - a), ops.absv(m - a) + ops.absv(b - m))
 
 
-LEMMAS = {'triangle': triangle}
-USED_BY = {'triangle': ['C06']}
+def line_frame(rho, d, w, z):
+    """rho*d == w == |d| > 0 (rho rotates d onto the positive real axis) and rho*z real
+       =>  z*w == Re(rho*z)*d  and  <z,d> == Re(rho*z)*w"""
+    rz = rho * z
+    return ops.Implies(ops.And(ops.eq(rho * d, ops.cx(w, 0)), ops.lt(0, w), ops.eq(w * w, ops.norm2(d)), ops.eq(ops.im(rz), 0)),
+                       ops.And(ops.eq(z * w, ops.re(rz) * d), ops.eq(ops.dot(z, d), ops.re(rz) * w)))
+
+
+LEMMAS = {'triangle': triangle, 'line_frame': line_frame}
+USED_BY = {'triangle': ['C06'], 'line_frame': ['C11', 'C12']}
+ARGS = {'triangle': 'ccc', 'line_frame': 'ccrc'}
 
 for _name, _props in USED_BY.items():
     for _p in _props:
         def _mk(name, prop):
             def lemma(c):
-                a, b, m = c.cplx('a'), c.cplx('b'), c.cplx('m')
-                c.ensures(name, LEMMAS[name](a, b, m))
+                args = [c.cplx('x%d' % i) if k == 'c' else c.real('x%d' % i) for i, k in enumerate(ARGS[name])]
+                c.ensures(name, LEMMAS[name](*args))
             lemma.__name__ = 'lemma_%s_%s' % (name, prop)
             globals()[lemma.__name__] = lemma
             contract(prop, 'lemma.' + name, params=[{'_no_bounded': True}], note='ghost lemma (no /repo code)')(lemma)
